@@ -31,7 +31,7 @@ theorem events_truthful (cfg : Cfg) (hnd : cfg.dryRun = false) (flt : Faults) (s
   have cu : ∀ a, (a = .create ∨ a = .update) → (a, p) ∈ (runF cfg flt scan dst n).events →
       ∃ e ∈ scanFilter cfg scan, e.rel = p ∧ (planEntry cfg dst e).act = a ∧
         (runF cfg flt scan dst n).dst.get? p ≠ none ∧
-        (e.kind = .dir → dst.get? p = none ∨ dst.get? p = some .dir) := by
+        (e.kind = .dir → dst.get? p = none ∨ dst.get? p = some .dir ∨ ∃ s, dst.get? p = some (.symlink s)) := by
     intro a ha hev
     obtain ⟨hr, t, ht, hok, hact, hrel⟩ := event_task hev
     have hnd' : t.act ≠ .delete := by rw [hact]; rcases ha with h | h <;> rw [h] <;> simp
@@ -44,17 +44,23 @@ theorem events_truthful (cfg : Cfg) (hnd : cfg.dryRun = false) (flt : Faults) (s
     · rw [(runF_of_not_refused hr).1, ← hrel]
       exact taskPost_present tp hns (planEntry_payload_of_cu hns) hne
     · have := tp.dir_pre hns (planEntry_payload_dir hkd) hne
-      rw [planEntry_rel, hrel] at this; exact this
+      rw [planEntry_rel, hrel] at this
+      rcases this with h | h | ⟨_, h⟩
+      · exact Or.inl h
+      · exact Or.inr (Or.inl h)
+      · exact Or.inr (Or.inr h)
   refine ⟨fun hev => ?_, fun hev => ?_, fun hev => ?_, fun hev => ?_⟩
   · obtain ⟨e, _, hrel, hact, hres, hdir⟩ := cu .create (Or.inl rfl) hev
     refine ⟨?_, hres⟩
     by_cases hkd : e.kind = .dir
-    · rcases hdir hkd with h | h
-      · exact h
-      · -- a directory already there is planned as `skip`, not `create`
-        rcases planEntry_dir_act (cfg := cfg) (dst := dst) hkd with ⟨_, h'⟩ | ⟨h', _⟩
-        · rw [h'] at hact; cases hact
-        · exact absurd (hrel ▸ h) h'
+    · -- a directory already there is planned as `skip`, a link there as `update` — not `create`
+      rcases planEntry_dir_act (cfg := cfg) (dst := dst) hkd with ⟨_, h'⟩ | ⟨_, h'⟩ | ⟨hnd', hnl', _⟩
+      · rw [h'] at hact; cases hact
+      · rw [h'] at hact; cases hact
+      · rcases hdir hkd with h | h | ⟨s, h⟩
+        · exact h
+        · exact absurd (hrel ▸ h) hnd'
+        · exact absurd (hrel ▸ h) (hnl' s)
     · exact hrel ▸ planEntry_create_none hkd hact
   · obtain ⟨e, _, hrel, hact, hres, _⟩ := cu .update (Or.inr rfl) hev
     exact ⟨hrel ▸ planEntry_update_some hact, hres⟩
